@@ -86,6 +86,9 @@ var bitAxioms = []string{
 	"(assert (= (popcount 0) 0))",
 	"(assert (forall ((k Int)) (! (=> (and (<= 0 k) (< k 64)) (and (<= 1 (pow2 k)) (<= (pow2 k) 9223372036854775808))) :pattern ((pow2 k)))))",
 	"(assert (= (pow2 0) 1))",
+	"(assert (forall ((j Int) (k Int)) (! (=> (and (<= 0 j) (< j k) (< k 64)) (<= (* 2 (pow2 j)) (pow2 k))) :pattern ((pow2 j) (pow2 k)))))",
+	"(assert (forall ((k Int)) (! (=> (and (<= 0 k) (< k 63)) (= (pow2 (+ k 1)) (* 2 (pow2 k)))) :pattern ((pow2 (+ k 1))))))",
+	"(assert (and (= (pow2 1) 2) (= (pow2 8) 256) (= (pow2 16) 65536) (= (pow2 32) 4294967296) (= (pow2 62) 4611686018427387904) (= (pow2 63) 9223372036854775808)))",
 	// single-bit test / set / clear
 	"(assert (forall ((a Int) (k Int)) (! (=> (and (<= 0 k) (< k 64)) (= (distinct (band a (pow2 k)) 0) (bit a k))) :pattern ((band a (pow2 k))))))",
 	"(assert (forall ((a Int) (k Int)) (! (=> (and (<= 0 k) (< k 64) (<= 0 a) (<= a 18446744073709551615)) (= (bor a (pow2 k)) (ite (bit a k) a (+ a (pow2 k))))) :pattern ((bor a (pow2 k))))))",
